@@ -463,7 +463,13 @@ class Connection(object):
 
             if not immediate and self.socket is not None:
                 # Flush any packets remaining in the queue.
-                while self._pop_packet():
+                try:
+                    while self._pop_packet():
+                        pass
+                except IOError:
+                    # The server may already have closed the connection, in
+                    # which case any remaining queued packets cannot be
+                    # delivered; carry on terminating the connection.
                     pass
 
             if self.new_networking_thread is not None:
